@@ -282,13 +282,20 @@ func (w *World) eventLog(ev string) fakeeth.LogSpec {
 		def := validDefinition(key)
 		expiry := uint64(1_000_000)
 		if bad {
-			switch (w.nBad + int(w.Seed)) % 3 {
+			// the way it is inadmissible depends on the block it lands in, so every way occurs in
+			// every position over the replayed histories
+			switch (len(w.Blk) + int(w.Seed)) % 4 {
 			case 0:
 				eon = uint64(math.MaxInt64) + 1
 			case 1:
 				expiry = uint64(math.MaxInt64) + 1
-			default:
+			case 2:
 				def = []byte{0x02, 0xc0} // version ok, RLP of an empty list: not a definition
+			default: // decodable but invalid: a dynamic reference to a topic
+				d := shutterservice.EventTriggerDefinition{Contract: addrOther, LogPredicates: []shutterservice.LogPredicate{{
+					LogValueRef:    shutterservice.LogValueRef{Dynamic: true, Offset: 1},
+					ValuePredicate: shutterservice.ValuePredicate{Op: shutterservice.BytesEq, ByteArgs: [][]byte{crypto.Keccak256([]byte("x"))}}}}}
+				def = d.MarshalBytes()
 			}
 		}
 		return fakeeth.EventTriggerRegistered(addrTrigReg, eon, prefix, addrSender, def, expiry)
